@@ -88,6 +88,25 @@ fn session<A: Aead, K: Kdf, M: Kem>(h: &mut Fnv, sealing: bool) {
         let mut out2 = [0u8; 48];
         rcv.export(b"exp", &mut out2).unwrap();
         h.add(&out2);
+        // the same session once more on this thread, and (Auth modes) a sender that presents the same
+        // identity PUBLIC key with a different private key: what these produce must not depend on
+        // the features either (a std-only cache keyed on part of the inputs shows here)
+        if mode >= 2 {
+            let (sk_x, _) = M::derive_keypair(b"c17 other sender ikm 0123456789abcdef");
+            let mx: OpModeS<M> = if mode == 2 { OpModeS::Auth((sk_x, pk_s.clone())) } else { OpModeS::AuthPsk((sk_x, pk_s.clone()), psk) };
+            let mut rng = Script(17 + mode as u64);
+            let (enc_x, snd_x) = hpke::setup_sender::<A, K, M, _>(&mx, &pk_r, b"c17 info", &mut rng).unwrap();
+            h.add(&enc_x.to_bytes());
+            let mut out3 = [0u8; 32];
+            snd_x.export(b"exp", &mut out3).unwrap();
+            h.add(&out3);
+        }
+        let mut rng = Script(17 + mode as u64);
+        let (enc_again, snd_again) = hpke::setup_sender::<A, K, M, _>(&ms, &pk_r, b"c17 info", &mut rng).unwrap();
+        h.add(&enc_again.to_bytes());
+        let mut out4 = [0u8; 32];
+        snd_again.export(b"exp", &mut out4).unwrap();
+        h.add(&out4);
     }
 }
 
